@@ -1,0 +1,27 @@
+//! Thin `pub` wrappers over crate-private items, for external verification machinery. Compiled
+//! only with the `verif_hooks` feature. Nothing in here is used by the linker itself.
+
+pub mod alignment {
+    use crate::alignment::Alignment;
+
+    /// `Alignment::new(raw)`; returns the exponent on success.
+    pub fn new(raw: u64) -> Option<u8> {
+        Alignment::new(raw).ok().map(|a| a.exponent)
+    }
+
+    pub fn value(exponent: u8) -> u64 {
+        Alignment { exponent }.value()
+    }
+
+    pub fn align_up(exponent: u8, value: u64) -> u64 {
+        Alignment { exponent }.align_up(value)
+    }
+
+    pub fn align_down(exponent: u8, value: u64) -> u64 {
+        Alignment { exponent }.align_down(value)
+    }
+
+    pub fn align_modulo(exponent: u8, ref_offset: u64, offset: u64) -> u64 {
+        Alignment { exponent }.align_modulo(ref_offset, offset)
+    }
+}
